@@ -476,6 +476,17 @@ class SymNP(types.ModuleType):
             out[i] = start + i * delta
         return out
 
+    def bincount(self, x, weights=None, minlength=0):
+        if not (active() and weights is not None and is_sym(weights)):
+            return _np.bincount(x, weights=weights, minlength=minlength)
+        x = _np.asarray(x)
+        w = _np.asarray(weights, dtype=object)
+        n = max(int(minlength), int(x.max()) + 1 if x.size else 0)
+        out = _objfill((n, ), SReal(0))
+        for i, b in enumerate(x):
+            out[int(b)] = out[int(b)] + w[i]
+        return out
+
     def sign(self, a):
         if not (active() and is_sym(a)):
             return _np.sign(a)
